@@ -166,7 +166,7 @@ def step (st : State) (line : String) : State × String :=
       let relOk : Bool := match kv ws "rel" with
         | none => true
         | some k => (k.toNat?.map (fun k => decide (k ≤ 8))).getD false && !k.startsWith "+"
-      if relOk = true ∧ (cs.filter (· == "listen")).length ≤ 3 ∧ killOk = true ∧ 1 ≤ w ∧ w ≤ 8 ∧ 1 ≤ l ∧ l ≤ 16 ∧ w * l ≤ n ∧ n ≤ 64 ∧ cs.all okCall ∧
+      if relOk = true ∧ (cs.filter (· == "listen")).length ≤ 3 ∧ killOk = true ∧ 1 ≤ w ∧ w ≤ 8 ∧ ((1 ≤ l ∧ l ≤ 16 ∧ w * l ≤ n) ∨ (2 ^ 31 ≤ l ∧ l < 2 ^ 64 ∧ 1 ≤ n)) ∧ n ≤ 64 ∧ cs.all okCall ∧
           (cs.filter (fun c => c == "limit" || c == "maxconn")).length = 1 ∧ (cs.filter (· == "workers")).length = 1 then
         let cfg : Cfg := { limit := l, nIdx := w }
         let ops : List Op := (List.replicate n (Op.env (.connect 0))) ++ [Op.poll [.listener 0, .waker] []]
